@@ -14,6 +14,9 @@ import (
 
 func init() {
 	register(&Property{ID: "C04", Run: runC04, Mutants: []Mutant{
+		{Name: "loop block type index written as unsigned LEB", File: "internal/wat/watutil/wat2wasm_instruction.go", Old: "dst.Body = append(dst.Body, p.encodeInt32(idx)...)", New: "dst.Body = append(dst.Body, p.encodeUint32(uint32(idx))...)", Nth: 2, Expect: "immediate-signedness"},
+		{Name: "i32.const operand written as unsigned LEB", File: "internal/wat/watutil/wat2wasm_instruction.go", Old: "p.encodeInt32(ins.X)", New: "p.encodeUint32(uint32(ins.X))", Expect: "immediate-signedness"},
+		{Name: "call target written as signed LEB", File: "internal/wat/watutil/wat2wasm_instruction.go", Old: "\t\tdst.Body = append(dst.Body, wasm.OpcodeCall)\n\t\tdst.Body = append(dst.Body, p.encodeUint32(x)...)", New: "\t\tdst.Body = append(dst.Body, wasm.OpcodeCall)\n\t\tdst.Body = append(dst.Body, p.encodeInt32(int32(x))...)", Expect: "immediate-signedness"},
 		{Name: "label search runs outermost-first (depth arithmetic kept)", File: "internal/wat/watutil/wat2wasm_helper.go", Old: "\tfor i := 0; i < len(p.labelScope); i++ {\n\t\tif s := p.labelScope[len(p.labelScope)-i-1]; s == label {\n\t\t\treturn wasm.Index(i)", New: "\tfor i, s := range p.labelScope {\n\t\tif s == label {\n\t\t\treturn wasm.Index(len(p.labelScope) - i - 1)", Expect: "label-resolution :: findLabelIndex"},
 		{Name: "label depth off by one", File: "internal/wat/watutil/wat2wasm_helper.go", Old: "\t\t\treturn wasm.Index(i)\n\t\t}\n\t}\n\tpanic(fmt.Sprintf(\"wat2wasm: unknown label", New: "\t\t\treturn wasm.Index(i + 1)\n\t\t}\n\t}\n\tpanic(fmt.Sprintf(\"wat2wasm: unknown label", Expect: "label-resolution :: findLabelIndex"},
 		{Name: "loop label never popped", File: "internal/wat/watutil/wat2wasm_instruction.go", Old: "\t\tins := i.(ast.Ins_Loop)\n\t\tp.enterLabelScope(ins.Label)\n\t\tdefer p.leaveLabelScope()\n", New: "\t\tins := i.(ast.Ins_Loop)\n\t\tp.enterLabelScope(ins.Label)\n", Expect: "label-resolution :: scope pairing: INS_LOOP"},
@@ -480,6 +483,8 @@ func runC04(c *Ctx) {
 	// ---- rule 6: label resolution; rule 7: per-iteration pointers
 	c04LabelScope(c, p, wu)
 	c04PointerAliasing(c, p, wu, p.Pkg("internal/wasm/binary"))
+	// ---- rule 8: signedness of every LEB128 immediate
+	c04ImmediateSignedness(c, p, wu)
 	_ = token.NoPos
 }
 
